@@ -209,7 +209,63 @@ def litValid (c : Cls) (d : Nat) (p : Params α) : Prop :=
 
 end scalar
 
-/-! ### driver operations (scalar = `Rat`) -/
+/-! ### the truncated power-law (TPL) classes: truncation scales and two-term correlation
+
+`TPLCovModel` (`covmodel/tpl_models.py`): every length that enters the correlation is a *rescaled* one —
+`len_low_rescaled = len_low / rescale`, `len_up_rescaled = (len_low + len_scale) / rescale`,
+`len_rescaled = len_scale / rescale` — and `TPLGaussian/TPLExponential/TPLStable.correlation` is
+```
+if np.isclose(len_low_rescaled, 0.0):  tplstable_cor(r, len_rescaled, H, α)
+else: (up**(2H) * tplstable_cor(r, up, H, α) - lo**(2H) * tplstable_cor(r, lo, H, α)) / (up**(2H) - lo**(2H))
+```
+with `lo = len_low_rescaled`, `up = len_up_rescaled`.  `tplstable_cor(r, ℓ, H, α)` is the `len_low = 0` model at
+upper scale `ℓ`; its value enters here as a number (`tUp`, `tLo`), the part modelled is which scales and which
+weights the class combines them with.  `GSV/Props/C02.lean` proves that this is the normalised superposition
+`∫_{lo}^{up} w(λ) φ(r/λ) dλ`, `w ≥ 0`, `∫ w = 1`. -/
+
+section tpl
+variable {α : Type} [Arith α] [Transc α] [DecidableLE α]
+
+/-- the truncation scales `correlation` works with; `snap` = the `np.isclose(len_low_rescaled, 0)` branch -/
+structure TplScales (α : Type) where
+  lo : α
+  up : α
+  snap : Bool
+
+/-- `np.isclose(x, 0.0)` is `|x| ≤ atol = 1e-8` -/
+def tplScales (lenScale lenLow rescale : α) : TplScales α :=
+  let lo := lenLow / rescale
+  if Transc.fabs lo ≤ (1e-8 : α) then ⟨((0:Nat):α), lenScale / rescale, true⟩
+  else ⟨lo, (lenLow + lenScale) / rescale, false⟩
+
+/-- weight of the upper-scale term `up^{2H} / (up^{2H} − lo^{2H})` -/
+def tplWeightUp (s : TplScales α) (H : α) : α :=
+  let a := Transc.rpow s.up (((2:Nat):α) * H)
+  let b := Transc.rpow s.lo (((2:Nat):α) * H)
+  a / (a - b)
+
+/-- weight of the (subtracted) lower-scale term `lo^{2H} / (up^{2H} − lo^{2H})` -/
+def tplWeightLow (s : TplScales α) (H : α) : α :=
+  let a := Transc.rpow s.up (((2:Nat):α) * H)
+  let b := Transc.rpow s.lo (((2:Nat):α) * H)
+  b / (a - b)
+
+/-- `correlation(r)` of a TPL class, given the values `tUp = tplstable_cor(r, s.up, H, α)` and
+    `tLo = tplstable_cor(r, s.lo, H, α)` of the two untruncated terms -/
+def tplCor (s : TplScales α) (H tUp tLo : α) : α :=
+  if s.snap then tUp else
+  let a := Transc.rpow s.up (((2:Nat):α) * H)
+  let b := Transc.rpow s.lo (((2:Nat):α) * H)
+  (a * tUp - b * tLo) / (a - b)
+
+/-- `TPLCovModel.var_factor` = `(up^{2H} − lo^{2H}) / (2H)` with the plain rescaled lengths (no snap) -/
+def tplVarFactor (lenScale lenLow rescale H : α) : α :=
+  (Transc.rpow ((lenLow + lenScale) / rescale) (((2:Nat):α) * H)
+    - Transc.rpow (lenLow / rescale) (((2:Nat):α) * H)) / (((2:Nat):α) * H)
+
+end tpl
+
+/-! ### driver operations (scalar = `Rat`; the TPL scales / weights on `Float`) -/
 
 def boundJson (b : Bound Rat) : Json :=
   Json.arr #[rat b.lo, (match b.hi with | none => Json.null | some h => rat h), Json.str b.iv.name]
@@ -276,6 +332,21 @@ def ops (op : String) (j : Json) : Option (Except String Json) :=
         ("result", errJson (firstError (allBounds c d0) p)),
         ("accepts", Json.bool (acceptsAfterSetDim c d0 d1 p)),
         ("fresh_accepts", Json.bool (accepts c d1 p))])
+  | "c02_tpl_mix" => some (do
+      let ls ← getFloat j "len_scale"
+      let ll ← getFloat j "len_low"
+      let rs ← getFloat j "rescale"
+      let h ← getFloat j "hurst"
+      let tu ← getFloats j "t_up"
+      let tl ← getFloats j "t_lo"
+      let s : TplScales Float := tplScales ls ll rs
+      let cor := (List.range tu.size).map fun i => tplCor s h tu[i]! (tl[i]?.getD 1.0)
+      return Json.mkObj [
+        ("lo", fbits s.lo), ("up", fbits s.up), ("snap", Json.bool s.snap),
+        ("len_low_rescaled", fbits (ll / rs)), ("len_up_rescaled", fbits ((ll + ls) / rs)),
+        ("w_up", fbits (tplWeightUp s h)), ("w_low", fbits (tplWeightLow s h)),
+        ("var_factor", fbits (tplVarFactor ls ll rs h)),
+        ("cor", fl cor)])
   | _ => none
 
 end GSV.Model.Validity
